@@ -807,6 +807,55 @@ def like_registers(rep, rule, idx, c, allowed=()):
     return n
 
 
+MUTATING_METHODS = {"pop", "append", "add", "insert", "remove", "update", "extend", "clear", "setdefault", "popitem", "discard", "sort",
+                    "reverse", "freeze", "assign", "send", "close", "__setitem__", "__delitem__", "popleft", "appendleft"}
+
+
+def pure_asserts(rep, rule, idx, module_suffixes, classes=None):
+    """Assumption A1 reads `assert` statements as internal invariants that may be ignored -- and `python -O` really removes them.
+    That is only sound when an assert does nothing but look: a test that pops, appends, freezes, assigns (walrus) or calls a package
+    function with effects performs a state change that disappears together with the assert."""
+    import ast as _ast
+    from ..core.effects import get_effects
+    try:
+        ef = get_effects(idx)
+    except Exception:
+        ef = None
+    n_asserts = 0
+    for f in idx.all_functions():
+        if not any(f.module.rel.endswith(sfx) for sfx in module_suffixes):
+            continue
+        if classes is not None and (f.cls is None or f.cls.name not in classes):
+            continue
+        for st in _ast.walk(f.node):
+            if not isinstance(st, _ast.Assert):
+                continue
+            n_asserts += 1
+            bad = None
+            for x in _ast.walk(st.test):
+                if isinstance(x, _ast.NamedExpr):
+                    bad = f"binds `{x.target.id}` (walrus)"
+                if isinstance(x, _ast.Call) and isinstance(x.func, _ast.Attribute) and x.func.attr in MUTATING_METHODS:
+                    bad = f"calls `{_ast.unparse(x.func)}()`, which changes `{_ast.unparse(x.func.value)}`"
+                if bad is None and isinstance(x, _ast.Call) and isinstance(x.func, _ast.Attribute) and isinstance(x.func.value, _ast.Name) and \
+                        x.func.value.id == "self" and f.cls is not None and ef is not None:
+                    h = idx.lookup_method(f.cls, x.func.attr)
+                    if h is not None:
+                        try:
+                            w = {loc[2][0] for loc in ef.summary(h).writes if loc[0] == 'self' and loc[2]}
+                        except Exception:
+                            w = None
+                        if w:
+                            bad = f"calls `self.{x.func.attr}()`, which writes {sorted(w)[:3]}"
+            what = f"`{_ast.unparse(st)[:70]}` only looks (asserts vanish under python -O)"
+            if bad:
+                rep.bad(rule, f.site, what, f"the assert {bad}: with assertions disabled (python -O / PYTHONOPTIMIZE) the statement is removed and "
+                        "the state change with it", line=st.lineno)
+            else:
+                rep.ok(rule, f.site, what, "no mutating call, no binding", nontrivial=False)
+    return n_asserts
+
+
 def iterable_handover(rep, rule, idx, ctor_spec, param, sink_call, sink_kw):
     """A constructor parameter documented as an *iterable* reaches `sink_call(..., sink_kw=param)` untouched: it is not
     traversed before (a one-shot iterable would arrive exhausted) and it is the parameter itself (or a materialised
